@@ -214,6 +214,8 @@ func c15One(c *C10Case) C15Obs {
 		o.Skip = "not a valid document"
 		return o
 	}
+	// validation reads the document, it never writes it: its JSON is the same afterwards
+	before, _ := shared.doc.MarshalJSON()
 	const G = 8
 	got := make([][]string, G)
 	var wg sync.WaitGroup
@@ -232,6 +234,9 @@ func c15One(c *C10Case) C15Obs {
 	// (a fresh load may route differently: the legacy router's trie depends on map iteration order)
 	want := c15Run(c, shared, 0)
 	o.Ops = len(want)
+	if after, _ := shared.doc.MarshalJSON(); string(after) != string(before) {
+		o.Differs = append(o.Differs, "the document was changed by validating against it")
+	}
 	for _, x := range want {
 		if strings.HasSuffix(x, "WRONG-FOR-THIS-ENGINE") {
 			o.Differs = append(o.Differs, x)
